@@ -333,3 +333,19 @@ func SetProtocolID(req packet.Request, v uint16) bool {
 	p.SetUint(uint64(v))
 	return true
 }
+
+// Readdress overwrites the exported TransactionID and UnitID of a request value in place (what a gateway handler does
+// before it forwards the request); reports whether both fields were found.
+func Readdress(req packet.Request, tid uint16, unit uint8) bool {
+	rv := reflect.ValueOf(req)
+	if rv.Kind() != reflect.Ptr || rv.IsNil() {
+		return false
+	}
+	t, u := rv.Elem().FieldByName("TransactionID"), rv.Elem().FieldByName("UnitID")
+	if !t.IsValid() || !u.IsValid() || !t.CanSet() || !u.CanSet() {
+		return false
+	}
+	t.SetUint(uint64(tid))
+	u.SetUint(uint64(unit))
+	return true
+}
